@@ -296,4 +296,101 @@ theorem findMethod_of_mem {l : List Method} (hd : natsDistinct (l.map (·.id)) =
         exact hd.1 (by rw [e]; exact List.mem_map.mpr ⟨mt, hm', rfl⟩)
       simp [hne, ih hd.2 hm']
 
+/-! ### unknown method ids, aliases of defined ids, and which user code runs -/
+
+/-- an id that no table entry carries is unknown: the lookup compares the whole number -/
+theorem findMethod_none_of_not_mem {mid : Nat} {l : List Method} (h : mid ∉ l.map (·.id)) : findMethod mid l = none := by
+  induction l with
+  | nil => rfl
+  | cons a r ih =>
+    simp only [List.map_cons, List.mem_cons, not_or] at h
+    simp only [findMethod]
+    rw [if_neg (fun e => h.1 e.symm)]
+    exact ih h.2
+
+theorem findMethod_none_iff {mid : Nat} {l : List Method} : findMethod mid l = none ↔ mid ∉ l.map (·.id) := by
+  constructor
+  · intro h hm
+    obtain ⟨mt, hmt, he⟩ := List.mem_map.mp hm
+    induction l with
+    | nil => cases hmt
+    | cons a r ih =>
+      simp only [findMethod] at h
+      split at h
+      · cases h
+      · rename_i hne
+        rcases List.mem_cons.mp hmt with rfl | hr
+        · exact hne he
+        · exact ih h (List.mem_map.mpr ⟨mt, hr, he⟩) hr
+  · exact findMethod_none_of_not_mem
+
+/-- every generated id is below 2^15: whatever has a bit from 15 upwards set is unknown -/
+theorem findMethod_none_of_ge {srv : Server} (hfit : srv.methodIdsFit = true) {mid : Nat} (h : 32768 ≤ mid) :
+    findMethod mid srv.methods = none := by
+  apply findMethod_none_of_not_mem
+  intro hm
+  obtain ⟨mt, hmt, he⟩ := List.mem_map.mp hm
+  have := (List.all_eq_true.mp hfit) mt hmt
+  simp only [decide_eq_true_eq] at this
+  omega
+
+theorem or_pow_ge (k b : Nat) (hb : 15 ≤ b) : 32768 ≤ k ||| 2 ^ b := by
+  have h1 : 2 ^ b ≤ k ||| 2 ^ b := Nat.right_le_or
+  have h2 : 2 ^ 15 ≤ 2 ^ b := Nat.pow_le_pow_right (by decide) hb
+  omega
+
+theorem add_pow_ge (k b : Nat) (hb : 15 ≤ b) : 32768 ≤ k + 2 ^ b := by
+  have h2 : 2 ^ 15 ≤ 2 ^ b := Nat.pow_le_pow_right (by decide) hb
+  omega
+
+theorem invoked_unknown (srv : Server) (mid : Nat) (ex : Option Exc) (h : findMethod mid srv.methods = none) :
+    invoked srv mid ex = none := by
+  simp [invoked, h]
+
+theorem invoked_some_iff (srv : Server) (mid : Nat) (ex : Option Exc) (k : Nat) :
+    invoked srv mid ex = some k ↔
+      k = mid ∧ ex = none ∧ ∃ mt, findMethod mid srv.methods = some mt ∧ mt.supported = true := by
+  unfold invoked
+  cases hf : findMethod mid srv.methods with
+  | none => simp
+  | some mt =>
+    have hid := (findMethod_some hf).2
+    cases hs : mt.supported <;> cases ex <;> simp [hs, hid] <;> omega
+
+/-- when no user method runs the outcome does not depend on what the user's methods would have done -/
+theorem not_invoked_user_irrelevant (srv : Server) (mid : Nat) (ex : Option Exc) (h : invoked srv mid ex = none)
+    (u u' : User) : generatedHandle srv mid ex u = generatedHandle srv mid ex u' := by
+  unfold invoked at h
+  unfold generatedHandle
+  cases hf : findMethod mid srv.methods with
+  | none => rfl
+  | some mt =>
+    simp only [hf] at h
+    cases hs : mt.supported
+    · simp [hs]
+    · cases ex with
+      | none => simp [hs] at h
+      | some e => simp [hs]
+
+theorem findServer_some {p : Nat} {l : List Server} {s : Server} (h : findServer p l = some s) :
+    s ∈ l ∧ s.protocol = p := by
+  induction l with
+  | nil => simp [findServer] at h
+  | cons a r ih =>
+    simp only [findServer] at h
+    split at h
+    · cases h; simp_all
+    · have := ih h; simp [this]
+
+/-- the registry `react` consults and the table `dispatch` consults agree on which protocols are registered -/
+theorem regLookup_registryOf (p : Nat) (l : List Server) :
+    regLookup p (registryOf l) = (findServer p l).map (·.noresponse) := by
+  induction l with
+  | nil => rfl
+  | cons a r ih =>
+    simp only [registryOf, List.map_cons, regLookup, findServer]
+    split
+    · rfl
+    · simpa [registryOf] using ih
+
 end Nx.RmcServer
